@@ -112,6 +112,9 @@ func coqValue(x interface{}) string {
 	return fmt.Sprintf("(VOpaque %s)", coqBytes(fmt.Sprintf("%T", x)))
 }
 
+// calls whose native trace is longer than this are not recorded (neither for the model nor for the oracle)
+const maxTraceEntries = 400
+
 type tracer struct {
 	entries []string
 }
@@ -622,6 +625,12 @@ func main() {
 						evalEnv = env.GetEvalEnv()
 						timeouts++
 						nt = t + 1 // no further tuples for this function
+					}
+					if len(tr.entries) > maxTraceEntries {
+						// nested loops over user calls multiplied the native calls into the thousands: the Coq evaluation of the
+						// trace would cost minutes; the call is not recorded
+						g.counts["skipped:long-native-trace"]++
+						continue
 					}
 					ci := len(po.Calls)
 					po.Calls = append(po.Calls, callObs{F: fi, ArgsGo: at.goText, ArgsCoq: at.coqText, Res: res, Trace: coqList(tr.entries), VL0: vl0})
